@@ -371,7 +371,7 @@ def join_workers():
         if t is me or t is threading.main_thread() or t.daemon:
             continue
         if type(t).__name__ == 'ThreadWorker':
-            t.join(20)
+            t.join(300)
             if t.is_alive():
                 raise core.HarnessError('worker thread of the code under test did not finish')
 
@@ -591,7 +591,6 @@ class TileJudge(object):
             xx, yy = xx[keep], yy[keep]
         if len(xx) == 0:
             return None
-        z = coord[2]
         bbox = tuple(float(v) for v in ref.tile_rect(*coord))
         rej, worst = self.ground.check_pixels(arr, xx, yy, bbox, (tw, th), self.ground.srs, rho=RHO, eps=EPS)
         if len(rej):
@@ -795,8 +794,10 @@ def run_setting(grid, ref, setting, ground, transparent, resolved, judge, case, 
                 res = judge.judge(c, data, exact)
                 if res is not None:
                     kind, msg = res
-                    where = ('trunc-' + trunc) if trunc else 'untruncated'
-                    run.violation = core.Violation(sig(kind, ukind, where), 'setting %d (%s): %s' % (si, tag, msg), case)
+                    where = 'truncated' if trunc else 'untruncated'
+                    run.violation = core.Violation(sig(kind, ukind, where), 'setting %d (%s)%s: %s'
+                                                   % (si, tag, (', buffer cut off on sides ' + trunc) if trunc else '', msg),
+                                                   case)
                     return run
         return run
     finally:
@@ -831,7 +832,11 @@ def check_case(case, st_, exclude_known=True):
         return None
     ref = RefGrid.from_grid(grid)
     if any(s['source'] == 'tiled' for s in case['settings']):
-        if any(grid.closest_level(r) != i for i, r in enumerate(grid.resolutions)):
+        # a TiledSource finds the tile of a query through grid.closest_level(resolution of the query); levels closer
+        # together than the stretch factor cannot be told apart that way (level selection is C03 / C02 matter)
+        res = list(grid.resolutions)
+        if any(grid.closest_level(r) != i for i, r in enumerate(res)) or \
+                any(a / b <= grid.stretch_factor * 1.001 for a, b in zip(res, res[1:])):
             st_.excluded['tiled-source-level-ambiguous'] += 1
             return None
     resolved = resolve_requests(grid, ref, case['requests'], case['lp'], st_)
@@ -911,10 +916,44 @@ def check_case(case, st_, exclude_known=True):
     return violation
 
 
+SHRINK_BUDGET = 150
+
+
+def bounded_check(ignored):
+    """check_case with a bounded shrink effort: after the first violation of a search, at most SHRINK_BUDGET further
+    cases are executed; later unseen cases count as passing (so the shrinker stops), already seen failing cases keep
+    their verdict (so the final replay of the minimal case is stable).  Purely count-based, hence deterministic."""
+    state = {'failed': {}, 'after': 0}
+
+    def fn(case, st_):
+        h = core.case_hash(case)
+        if h in state['failed']:
+            return state['failed'][h]
+        if state['failed']:
+            if state['after'] >= SHRINK_BUDGET:
+                st_.notes['shrink-budget-cutoff'] += 1
+                return None
+            state['after'] += 1
+        v = check_case(case, st_)
+        if v is not None and v.signature in ignored:
+            v = None
+        if v is not None:
+            state['failed'][h] = v
+        return v
+    return fn
+
+
 def random_shard(shard, nshards, seed, tier):
     st_ = core.Stats()
-    n = (6400 if tier == 'quick' else 96000) // nshards
-    core.hyp_search(cases(), check_case, st_, max_examples=n, seed=seed)
+    n = (6400 if tier == 'quick' else 240000) // nshards
+    ignored = set()
+    for _ in range(3):   # one search per root-cause signature, like core.hyp_search, but each with a bounded shrink
+        before = len(st_.violations)
+        core.hyp_search(cases(), bounded_check(ignored), st_, max_examples=n, seed=seed, max_signatures=1)
+        new = st_.violations[before:]
+        if not new:
+            break
+        ignored |= set(v.signature for v in new)
     return st_
 
 
